@@ -6,8 +6,8 @@
    lemmas in proofs/).  One deviation remains and is stated as such: substring with a negative
    count. *)
 From Coq Require Import NArith ZArith List Bool.
-From GV Require Import model.Utf8 model.Like model.StrFn
-  proofs.Utf8Proofs proofs.LikeProofs proofs.StrFnProofs.
+From GV Require Import model.Utf8 model.Like model.StrFn model.Regex
+  proofs.Utf8Proofs proofs.LikeProofs proofs.StrFnProofs proofs.RegexProofs.
 Import ListNotations.
 Open Scope N_scope.
 
@@ -122,3 +122,121 @@ Theorem C20_lpad_correct : forall fuel cs count pad, (count <= Z.of_nat fuel)%Z 
   impl_lpad fuel cs count pad = Ok (spec_lpad cs count pad).
 Proof. exact lpad_correct. Qed.
 Print Assumptions C20_lpad_correct.
+
+(* 5. the remaining string functions *)
+Theorem C20_translate_correct : forall cs from to, translate_map cs from to = Ok (spec_translate cs from to).
+Proof. exact translate_correct. Qed.
+Print Assumptions C20_translate_correct.
+
+Theorem C20_repeat_correct : forall cs num, impl_repeat cs num = Ok (spec_repeat_copies cs num).
+Proof. exact repeat_correct. Qed.
+Print Assumptions C20_repeat_correct.
+
+Theorem C20_ltrim_spec : forall cs set, exists pre,
+  cs = pre ++ spec_ltrim cs set /\ forallb (in_set set) pre = true /\
+  match spec_ltrim cs set with [] => True | c :: _ => in_set set c = false end.
+Proof. exact ltrim_spec. Qed.
+Print Assumptions C20_ltrim_spec.
+
+Theorem C20_rtrim_spec : forall cs set, exists post,
+  cs = spec_rtrim cs set ++ post /\ forallb (in_set set) post = true /\
+  match rev (spec_rtrim cs set) with [] => True | c :: _ => in_set set c = false end.
+Proof. exact rtrim_spec. Qed.
+Print Assumptions C20_rtrim_spec.
+
+Theorem C20_split_part_positive_correct : forall cs d n, (0 < n)%Z ->
+  option_map Ok (spec_split_part cs d n) = Some (impl_split_part cs d n).
+Proof. exact split_part_positive_correct. Qed.
+Print Assumptions C20_split_part_positive_correct.
+
+Theorem C20_split_part_zero_deviation : forall cs d, impl_split_part cs d 0 = Ok [] /\ spec_split_part cs d 0 = None.
+Proof. exact split_part_zero_deviation. Qed.
+Print Assumptions C20_split_part_zero_deviation.
+
+Theorem C20_split_part_empty_delimiter_deviation : forall cs,
+  impl_split_part cs [] (-1) = Ok [] /\ spec_split_part cs [] (-1) = Some cs.
+Proof. exact split_part_empty_delimiter_deviation. Qed.
+Print Assumptions C20_split_part_empty_delimiter_deviation.
+
+Theorem C20_split_part_overlap_deviation :
+  impl_split_part [97; 97; 97] [97; 97] (-1) = Ok [] /\ spec_split_part [97; 97; 97] [97; 97] (-1) = Some [97].
+Proof. exact split_part_overlap_deviation. Qed.
+Print Assumptions C20_split_part_overlap_deviation.
+
+Theorem C20_replace_valid : forall cs from to r, cps_valid cs -> cps_valid to ->
+  impl_replace cs from to = Ok r -> utf8_validb (encode r) = true.
+Proof. exact replace_valid. Qed.
+Print Assumptions C20_replace_valid.
+
+Theorem C20_translate_valid : forall cs from to r, cps_valid cs -> cps_valid to ->
+  translate_map cs from to = Ok r -> utf8_validb (encode r) = true.
+Proof. exact translate_valid. Qed.
+Print Assumptions C20_translate_valid.
+
+Theorem C20_trim_valid : forall cs set, cps_valid cs ->
+  utf8_validb (encode (spec_ltrim cs set)) = true /\ utf8_validb (encode (spec_rtrim cs set)) = true /\
+  utf8_validb (encode (spec_btrim cs set)) = true.
+Proof. exact trim_valid. Qed.
+Print Assumptions C20_trim_valid.
+
+Theorem C20_concat_repeat_valid : forall a b n, cps_valid a -> cps_valid b ->
+  utf8_validb (encode (spec_concat a b)) = true /\ utf8_validb (encode (spec_repeat_copies a n)) = true.
+Proof. exact concat_repeat_valid. Qed.
+Print Assumptions C20_concat_repeat_valid.
+
+(* 6. case mapping, ASCII rows of the Unicode tables *)
+Theorem C20_upper_ascii_correct : forall cs, upper_ascii cs = Ok (spec_upper_ascii cs).
+Proof. exact upper_ascii_correct. Qed.
+Print Assumptions C20_upper_ascii_correct.
+
+Theorem C20_lower_ascii_correct : forall cs, lower_ascii cs = Ok (spec_lower_ascii cs).
+Proof. exact lower_ascii_correct. Qed.
+Print Assumptions C20_lower_ascii_correct.
+
+Theorem C20_case_ascii_properties : forall cs, is_ascii cs = true ->
+  is_ascii (spec_upper_ascii cs) = true /\ is_ascii (spec_lower_ascii cs) = true /\
+  length (spec_upper_ascii cs) = length cs /\ length (spec_lower_ascii cs) = length cs /\
+  spec_upper_ascii (spec_upper_ascii cs) = spec_upper_ascii cs /\
+  spec_lower_ascii (spec_upper_ascii cs) = spec_lower_ascii cs /\
+  utf8_validb (encode (spec_upper_ascii cs)) = true /\ utf8_validb (encode (spec_lower_ascii cs)) = true.
+Proof. exact case_ascii_properties. Qed.
+Print Assumptions C20_case_ascii_properties.
+
+(* full: forall cs, initcap_ascii cs = Ok (spec_initcap_ascii cs) *)
+Theorem C20_initcap_correct_partial : forall cs, initcap_seps_known cs = true ->
+  initcap_ascii cs = Ok (spec_initcap_ascii cs).
+Proof. exact initcap_correct_partial. Qed.
+Print Assumptions C20_initcap_correct_partial.
+
+Theorem C20_initcap_refuted :
+  initcap_ascii [97; 43; 98] = Ok [65; 43; 98] /\ spec_initcap_ascii [97; 43; 98] = [65; 43; 66].
+Proof. exact initcap_refuted. Qed.
+Print Assumptions C20_initcap_refuted.
+
+(* 7. regular expressions: fragment, derivative matcher, search, leftmost start *)
+Theorem C20_regex_matcher_correct : forall s r, dmatch r s = true <-> Matches r s.
+Proof. exact dmatch_spec. Qed.
+Print Assumptions C20_regex_matcher_correct.
+
+Theorem C20_regexp_like_spec : forall p s,
+  rx_is_match p s = true <-> exists pre m post, s = pre ++ m ++ post /\ RxOccurs p pre m post.
+Proof. exact rx_is_match_spec. Qed.
+Print Assumptions C20_regexp_like_spec.
+
+Theorem C20_regexp_find_leftmost : forall p s i, rx_bol p = false -> rx_find_start p s = Some i ->
+  (exists m post, dropN i s = m ++ post /\ Matches (rx_body p) m /\ (rx_eol p = true -> post = [])) /\
+  forall j, j < i -> ~ exists m post, dropN j s = m ++ post /\ Matches (rx_body p) m /\ (rx_eol p = true -> post = []).
+Proof. exact rx_find_start_leftmost. Qed.
+Print Assumptions C20_regexp_find_leftmost.
+
+(* full: forall p cs, impl_regexp_instr p cs = Ok (spec_regexp_instr p cs) *)
+Theorem C20_regexp_instr_ascii_partial : forall p cs, forallb (fun c => c <? 0x80) cs = true ->
+  impl_regexp_instr p cs = Ok (spec_regexp_instr p cs).
+Proof. exact regexp_instr_ascii_partial. Qed.
+Print Assumptions C20_regexp_instr_ascii_partial.
+
+Theorem C20_regexp_instr_refuted :
+  let p := {| rx_bol := false; rx_body := Chr (CLit 97); rx_eol := false |} in
+  impl_regexp_instr p [26085; 97] = Ok 4%Z /\ spec_regexp_instr p [26085; 97] = 2%Z.
+Proof. exact regexp_instr_refuted. Qed.
+Print Assumptions C20_regexp_instr_refuted.
